@@ -1,5 +1,5 @@
 """C06 — every input ends in a value or a diagnosed error — never a crash or a hang."""
-import io, itertools, os, re, subprocess, sys
+import io, itertools, json, os, re, subprocess, sys
 import core
 import pipeline
 
@@ -205,7 +205,8 @@ def check(ctx):
         run("".join(rng.choice(alphabet) for _ in range(rng.randrange(0, 14))), "chars")
     for text in ["", " ", ";", ";;", "1;", ";1", "%", "(", ")", "1 +", "x =", "=", "1e", "1e-", "0x", "0b2", "#", "\"", "{", "[1,", "f(", "f(1,", "1..", "..1",
                  "1 to", "to m", "1 m to", "1 m |", "1 m^", "1 m^x", "1 m^1.5", "instant", "1.5e400", "2^20000", "10^5000/3", "1/(10^400) + 0.5",
-                 "sample(Geometric(1))", "max(5)", "max()", "range(1,2,0)", "range(1e16, 1e16+4, 0.5)", "range(10^16, 10^16+4, 0.5)", "range(1.0e16, 1.0e16+2, 0.25)",
+                 "sample(Geometric(1))", "max(5)", "max()", "range(1,2,0)", "1" + "0" * 400 + ".0", "1" + "0" * 400 + ".5 + 1", "1" + "0" * 308 + ".0", "9" * 309 + ".9", "1" + "0" * 400 + ".5e-200", "0." + "0" * 400 + "1",
+                 "range(1e16, 1e16+4, 0.5)", "range(10^16, 10^16+4, 0.5)", "range(1.0e16, 1.0e16+2, 0.25)",
                  "range(2^53, 2^53+8, 0.5)", "range(1e300, 1e300*2, 1)", "range(0.1, 0.2, 1e-18)", "size(range(2251799813685248.5, 2251799813685268.5, 0.7))", "ceil(#2020-01-31#)", "#2020-01-01# + 1 ms", "log(8,-2)", "ln(1/10^400)",
                  "sin(1/1.5e-200/1.5e-200)", "x = 1/1.5e-200/1.5e-200; int(x - x)", "x = pi*1e308; x - x", "x = 2.5*1e308; x*0",
                  "#2020-01-01# + (1/1.5e-200/1.5e-200) s", "floor(pi*1e308)", "{2.5*1e308}", "1e308 miles", "[1, 1e308]*2.5",
@@ -230,6 +231,58 @@ def check(ctx):
                       "x=1;" * depth + "x", ";".join(["1"] * (depth * 10)), "{" + ", ".join(["1"] * (depth * 10)) + "}", "1 < " * depth + "2",
                       "2" + "^2" * min(depth, 12), "(" * depth, ")" * depth, "(" * depth + "1", "1" + ")" * depth, "{" * depth + "1" + "}" * (depth - 1)]:
             run(chain, "depth/chain")
+    # ---- (iii'') the plotting functions with the REAL plotting library (the rest of this check stubs it): one subprocess,
+    # Agg backend; skipped with a note when matplotlib cannot be imported there
+    probe = r'''
+import io, json, sys
+try:
+    import matplotlib
+    matplotlib.use("Agg")
+    import matplotlib.pyplot
+except Exception as e:
+    print("PLOTPROBE " + json.dumps(dict(skip=type(e).__name__)))
+    sys.exit(0)
+from ka.interpret import execute
+from ka.eval import EvalEnvironment
+res = []
+for t in json.loads(sys.argv[1]):
+    o, e = io.StringIO(), io.StringIO()
+    try:
+        rc = execute(t, EvalEnvironment(), out=o, errout=e)
+        res.append([t, rc, o.getvalue(), e.getvalue()[:200], None])
+    except BaseException as ex:
+        res.append([t, None, o.getvalue(), e.getvalue()[:200], type(ex).__name__])
+print("PLOTPROBE " + json.dumps(dict(results=res)))
+'''
+    plot_inputs = ["plot(line({1,2},{1}))", "line({1,2},{1})", "scatter({1},{1,2})", "plot(scatter({1},{1,2}), options(grid: 1))", "plot(line({1,2},{1,3}))",
+                   "histogram({})", "histogram({1,2,2,3})", "plot()", "line({1,2},{3,4}, colour: \"nosuchcolour\")", "plot(hline(1), vline(2), text(1, 1, \"a\"))",
+                   "line({1 m, 2 m},{1,2})", "plot(line({1,2},{\"a\",\"b\"}))", "scatter({1,2},{1,2}, size: -1)", "histogram({1,2}, num_bins: 0)"]
+    import subprocess, tempfile as _tf, shutil as _sh
+    ph = _tf.mkdtemp(prefix="c06plot-")
+    try:
+        penv = dict(os.environ, HOME=ph, PYTHONPATH=os.path.join(core.REPO, "src"), MPLBACKEND="Agg", MPLCONFIGDIR=ph)
+        pp = subprocess.run([sys.executable, "-c", probe, json.dumps(plot_inputs)], stdout=subprocess.PIPE, stderr=subprocess.PIPE, env=penv, timeout=300, cwd=ph)
+        line_ = next((l for l in pp.stdout.decode("utf-8", "replace").split("\n") if l.startswith("PLOTPROBE ")), None)
+        pr = json.loads(line_[10:]) if line_ else dict(skip="no answer: " + pp.stderr.decode("utf-8", "replace")[-200:])
+    except Exception as e:  # noqa
+        pr = dict(skip=type(e).__name__)
+    finally:
+        _sh.rmtree(ph, ignore_errors=True)
+    if "skip" in pr:
+        ctx.notes.append("real-matplotlib probe skipped: %s" % pr["skip"])
+    else:
+        for t, rc_, out_, err_, esc_ in pr["results"]:
+            ctx.count("plotprobe:" + t, bucket="plotting with the real library")
+            how = "HOME=<empty> MPLBACKEND=Agg python -c 'from ka.interpret import execute; ...' on %r" % t
+            if esc_:
+                ctx.violation("plot-escape", t, "status 0 or 1 (no host exception escapes)", "escaped " + esc_, how)
+            elif rc_ == 0 and err_.strip():
+                ctx.violation("plot-draw-error-status0", t, "status 0 with nothing on the error stream, or status 1 with nothing on the output stream",
+                              "status 0, out=%r, err=%r" % (out_[:40], err_[:120]), how)
+            elif rc_ == 1 and (out_.strip() or not err_.strip()):
+                ctx.violation("plot-stream-discipline", t, "status 1 with a diagnostic and no output", "out=%r err=%r" % (out_[:40], err_[:80]), how)
+            elif rc_ not in (0, 1):
+                ctx.violation("plot-status", t, "status 0 or 1", repr(rc_), how)
     # ---- (iv) well-formed random programs
     import importlib
     sys.path.insert(0, os.path.join(core.VERIF, "harness", "props"))
